@@ -44,9 +44,10 @@ def n1F (opt : Bool) (items : List Item) (lv i : Nat) (prev it : Item) : List (N
       ((ESV.Gen.opsCtx.contains (itemName prev) || !opt) || !ESV.Gen.opsEndFlow.contains (realName it))
   then [(lv, i+1)] else []
 
-/-- the Hold look-ahead of `nextFor` -/
-def holdF (items : List Item) (lv i : Nat) (it : Item) : List (Nat × Nat) :=
-  if realName it == ESV.Gen.op_hold && items.length > i + 1 then
+/-- the Hold look-ahead of `nextFor` (nothing when the fall-through successor is there already) -/
+def holdF (opt : Bool) (items : List Item) (lv i : Nat) (prev it : Item) : List (Nat × Nat) :=
+  if realName it == ESV.Gen.op_hold && items.length > i + 1 &&
+      !(n1F opt items lv i prev it).contains (lv, i+1) then
     match items[i+1]? with
     | some nx => if ESV.Gen.opsEndFlow.contains (itemName nx) then [(lv, i+1)] else []
     | none => []
@@ -62,12 +63,12 @@ theorem nextFor_some (labels : List Lbl) (opt : Bool) (rid : Nat) (items : List 
         | some l =>
           if l.rtn == rid then
             match labelIndex items lid with
-            | some li => .ok (n1F opt items lv i prev it ++ [(lv + 1, li)] ++ holdF items lv i it, g)
+            | some li => .ok (n1F opt items lv i prev it ++ [(lv + 1, li)] ++ holdF opt items lv i prev it, g)
             | none => .error "KeyError"
           else
-            .ok (n1F opt items lv i prev it ++ [(lv + 1, g.vs.length)] ++ holdF items lv i it,
+            .ok (n1F opt items lv i prev it ++ [(lv + 1, g.vs.length)] ++ holdF opt items lv i prev it,
               { g with vs := g.vs ++ [.foreign lid] })
-      | _ => .ok (n1F opt items lv i prev it ++ holdF items lv i it, g) := by
+      | _ => .ok (n1F opt items lv i prev it ++ holdF opt items lv i prev it, g) := by
   unfold nextFor
   simp only [hp, hi]
   cases it <;> rfl
